@@ -51,6 +51,8 @@ impl Property for C16 {
         let mut lens = vec![0usize, 0, 1, 4, 15, 16, 17, 32, 32, 165, 166, 167, 332, 1000];
         if ctx.thorough {
             lens.push(100_000);
+        } else if ctx.ch.chance(1, 20) {
+            lens = vec![0, 32, 70_000];
         }
         let ml = *ctx.ch.pick(&lens);
         let rl = *ctx.ch.pick(&lens);
